@@ -223,9 +223,11 @@ def run_two_instances(case, outcome):
 
     calls = []
 
+    gdef = properties.Group("G", vectors=dict(v=properties.TextVector("V", elements=dict(e0=properties.Text("E0", default="a"), e1=properties.Text("E1", default="a")))))
+
     class Dev(Driver):
         name = "D"
-        g = properties.Group("G", vectors=dict(v=properties.TextVector("V", elements=dict(e0=properties.Text("E0", default="a"), e1=properties.Text("E1", default="a")))))
+        g = gdef
 
         def __init__(self, tag, **kw):
             self.tag = tag
@@ -241,7 +243,22 @@ def run_two_instances(case, outcome):
         def on_change(self, ev):
             calls.append((self.tag, "change", ev.new_value))
 
-    instances = [Dev(k, router=Router()) for k in range(case["instances"])]
+    cls = Dev
+    if case.get("override"):
+        # a derived driver that overrides the decorated handlers and repeats the decorator (as the library requires for an
+        # override to stay subscribed): each is still ONE handler of its event
+        class Sub(Dev):
+            @on(gdef.v.e0, events.Write)
+            def on_write(self, ev):
+                calls.append((self.tag, "write", ev.new_value))
+                if case.get("veto") == self.tag:
+                    ev.prevent_default = True
+
+            @on(gdef.v.e0, events.Change)
+            def on_change(self, ev):
+                calls.append((self.tag, "change", ev.new_value))
+        cls = Sub
+    instances = [cls(k, router=Router()) for k in range(case["instances"])]
     counts = []
     for step, (k, how, value) in enumerate(case["ops"]):
         del calls[:]
@@ -268,6 +285,7 @@ def gen_two_instances(rng, tier):
             for _ in range(6 if tier == "thorough" else 3):
                 ops = [[rng.randrange(instances), rng.choice(["set_value", "assign"]), rng.choice(["a", "b", "c", "d"])] for _k in range(rng.randint(2, 8))]
                 yield {"op": "twoinst", "instances": instances, "veto": veto, "ops": ops}
+                yield {"op": "twoinst", "instances": instances, "veto": veto, "ops": ops, "override": True}
 
 
 _run_nested = run_impl
